@@ -34,7 +34,7 @@ def main():
             return 2
         env["VERIF_REPO"] = repo
         env["VERIF_EVIDENCE_DIR"] = os.path.join(base, "evidence")
-    results = {}
+    results, detail = {}, {}
     try:
         if subprocess.run(["git", "-C", repo, "apply", patch]).returncode != 0:
             print("patch does not apply")
@@ -43,6 +43,8 @@ def main():
             p = subprocess.run(["./check", c, "--tier", tier], cwd=ROOT, capture_output=True, text=True, env=env)
             tail = [l for l in p.stdout.splitlines() if l.startswith(("VIOLATION", "KNOWN-FINDING", "MACHINERY", c))]
             results[c] = p.returncode
+            viol = [l for l in p.stdout.splitlines() if l.startswith("VIOLATION")]
+            detail[c] = "exit %d" % p.returncode + (", " + viol[0].split("  (", 1)[-1].rstrip(")")[:160] if viol and "  (" in viol[0] else "") + (" -- MISSED" if p.returncode == 0 and c == sid[:3] else "")
             print("== %s exit %d" % (c, p.returncode))
             for l in tail[:4] + tail[-1:]:
                 print("   " + l[:220])
@@ -54,6 +56,13 @@ def main():
             subprocess.run(["git", "-C", "/repo", "worktree", "remove", "--force", repo])
             shutil.rmtree(base, ignore_errors=True)
     print("SUMMARY", sid, results)
+    if "--record" in sys.argv:
+        import json
+        mp = "%s/seeded/%s/meta.json" % (ROOT, sid)
+        m = json.load(open(mp))
+        m.setdefault("checks_run", {}).update(detail)
+        m["caught_by"] = sorted(set(m.get("caught_by", [])) - set(results) | {c for c, rc in results.items() if rc == 1})
+        json.dump(m, open(mp, "w"), indent=1)
     return 0
 
 
